@@ -176,6 +176,18 @@ def _run_tref(shape, res, sink):
                     return L(d._t_ref_bmjd == 0) if core.is_sym(d._t_ref_bmjd) else z3.BoolVal(d._t_ref_bmjd == 0)
                 return L(d.t_ref.tcb._v) == L(d._t_ref_bmjd)
             sink.check(path, "tref.samples_epoch_is_kernel_epoch", core.SB(consistent(all_data)), site="validate_prepare_data.t_ref", describe=desc)
+            # ... and it is the epoch the user asked for: a single source keeps its own (explicit, disabled or default = earliest
+            # time); merged sources are referred to the earliest time of the merged set
+            t_min = cells[0][0][0]
+            if shape["input"] == "single" and shape["tref"] in ("common", "distinct"):
+                want = trefs[0].tcb._v
+            elif shape["input"] == "single" and shape["tref"] == "false":
+                want = 0
+            else:
+                want = t_min
+            got = all_data._t_ref_bmjd
+            sink.check(path, "tref.prescribed_epoch", core.SB(L(got) == L(want) if (core.is_sym(got) or core.is_sym(want)) else z3.BoolVal(got == want)),
+                       site="validate_prepare_data.t_ref", describe=desc)
             sink.check(path, "tref.copy", core.SB(z3.And(consistent(dcopy), L(dcopy._t_ref_bmjd) == L(all_data._t_ref_bmjd))), site="RVData.copy", describe=desc)
             # (a slice is a new data set: whether it keeps the parent's epoch is not part of the property; its two epochs must agree)
             sink.check(path, "tref.slice", core.SB(consistent(dslice)), site="RVData.__getitem__", describe=desc)
@@ -441,6 +453,12 @@ def _replay_tref(shape, m):
                     bad.append("%s: t_ref is None but _t_ref_bmjd=%r" % (tag, d._t_ref_bmjd))
             elif abs(d.t_ref.tcb.mjd - d._t_ref_bmjd) > 1e-9:
                 bad.append("%s: samples would inherit t_ref=MJD %.4f while the kernel/trend use MJD %.4f" % (tag, d.t_ref.tcb.mjd, d._t_ref_bmjd))
+        if shape["input"] == "single":
+            want = 0.0 if shape["tref"] == "false" else (srcs[0]._t_bmjd.min() if shape["tref"] == "default" else srcs[0].t_ref.tcb.mjd)
+        else:
+            want = min(d._t_bmjd.min() for d in srcs)
+        if abs(all_data._t_ref_bmjd - want) > 1e-9:
+            bad.append("prepared data refer to MJD %.4f, the prescribed reference epoch is MJD %.4f" % (all_data._t_ref_bmjd, want))
         if all_data.t_ref is not None:
             s = JokerSamples(poly_trend=shape["poly"], n_offsets=0, t_ref=all_data.t_ref)
             row = {"P": 7.3 * u.day, "e": 0.3 * u.one, "omega": 0.7 * u.rad, "M0": 1.1 * u.rad, "K": 4.0 * u.km / u.s, "v0": 1.0 * u.km / u.s, "v1": 0.25 * u.km / u.s / u.day}
